@@ -168,7 +168,7 @@ class C14(Check):
             services = {1: {0x10: [1]}}
         nclients = rng.choice([1, 1, 2, 3])
         big = rng.random() < 0.08
-        plan["clients"] = [gen_requests(rng, services, rng.choice([1, 5, 20, 50, 100]), big) for _ in range(nclients)]
+        plan["clients"] = [gen_requests(rng, services, rng.choice([1, 5, 20, 50, 100] if tier == "quick" else [20, 100, 300]), big) for _ in range(nclients)]
         plan["scheme"] = rng.choice(["tcp", "tcp", "unix"])
         plan["segment"] = rng.choice(["whole", "random", "random", "bytes"]) if not big else rng.choice(["whole", "random"])
         plan["lat"] = rng.choice([[0.0001, 0.0005], [0.001, 0.005]])
